@@ -3,7 +3,7 @@ HOOKS = dict(guard='ADAPTAGRAMS_VERIF',
              baseline_off_cmd='make -C /repo/cola -k check',
              source_commits=['31cf118'], add_only=True)
 NOTES = ('See DESIGN.md. bin/check <Cnn> quick|thorough is the single entry point; exit 2 = check broken (never a VIOLATION). Hook commit in /repo: 31cf118 (H1: IncSolver step events in '
-         'libvpsc/solve_VPSC.{h,cpp}, guarded by ADAPTAGRAMS_VERIF, add-only). Repairs of genuine defects in /repo (unguarded "fix:" commits): a92ac61, a8080b2, 7e61e2d, 6e1feea, 43c244c; '
+         'libvpsc/solve_VPSC.{h,cpp}, guarded by ADAPTAGRAMS_VERIF, add-only). Repairs of genuine defects in /repo (unguarded "fix:" commits): a92ac61, a8080b2, 7e61e2d, 6e1feea, 43c244c, 41ebabe, e517133, f673802; '
          'recorded in known-findings.txt as "fixed:" lines; defects recorded rather than repaired are the "known:" lines of that file (DESIGN 6b).')
 
 chk('C16', 'model_checking',
@@ -90,8 +90,8 @@ chk('C15', 'model_checking',
     'Lifecycle.tla models the ownership protocol of libavoid at object granularity (shapes, pins, junctions, connectors: unborn/queued/live/dying/freed; connector ends, pins and hyperedge registrations as references; '
     'documented preconditions as enabling conditions; transactions on/off). TLC checks for all legal histories to a depth that no reference to a freed object exists in any state. Histories are behaviours of the '
     'specification (TLC simulation) replayed on an ASan+UBSan+LSan build of the real library; every completed execution is trace-validated against Lifecycle (each call an enabled action, live object sets equal at every '
-    'processing point); an execution that ends in a failed assertion, sanitizer report, crash or non-termination is rejected and reported.',
-    'Memory errors / UB below object level are seen by the sanitizers on the replayed histories, not by the specification; libavoid only (2 shapes, 1 junction, 3 connectors). F10 and F27 are known findings; F16 was repaired (fix: commit).',
+    'processing point); an execution that ends in a failed assertion, sanitizer report, crash or non-termination is rejected and reported. A last stage runs the conformance harnesses of the other four libraries (libvpsc, libcola, libtopology, libdialect, and the shortest-paths/heap templates) on the same sanitizer build over TLC-generated/seeded inputs and reports any sanitizer finding per allocation or access site.',
+    'Memory errors / UB below object level are seen by the sanitizers on the replayed histories, not by the specification; the object-level protocol model is libavoid only (2 shapes, 1 junction, 3 connectors), the other libraries are covered by the sanitizer stage alone. F10, F17, F18, F27, F37 and F50 (libdialect leaks) are known findings; F16, F7 and F49 were repaired (fix: commits 7e61e2d, 41ebabe, e517133).',
     'TLA+ object-lifecycle protocol; TLC-generated API histories replayed on a sanitizer build; trace validation', '4/C15')
 
 chk('C11', 'model_checking',
@@ -103,8 +103,8 @@ chk('C11', 'model_checking',
 chk('C12', 'model_checking',
     'Hyperedge.tla builds the abstract graph (junction nodes, one leaf per non-junction connector end, an edge per connector) from the projection recorded after registerHyperedgeForRerouting + processTransaction '
     'and after a follow-up transaction, and requires: one tree, leaves exactly the terminals the hyperedge was built with, no junction leaf, both ends of every connector attached, routes joining the positions of '
-    'the attached objects, reported new/deleted lists consistent with the live objects. Every snapshot after a processTransaction() is judged (the improver runs whether or not the hyperedge is registered). Scenarios are TLC-enumerated over two geometries: every set of 3..4 pin terminals of three shapes, and every set of 4..5 terminals around a junction that has shapes straight above and below it and two or three further along one line (shared paths, degree 4..5), x junction position x improvement options x follow-up.',
-    'Orthogonal routing only (hyperedge rerouting is orthogonal). F12, F28 and F29 are known findings.',
+    'the attached objects, reported new/deleted lists consistent with the live objects. Every snapshot after a processTransaction() is judged (the improver runs whether or not the hyperedge is registered). Scenarios are TLC-enumerated over two geometries: every set of 3..4 pin terminals of three shapes, and every set of 4..5 terminals around a junction that has shapes straight above and below it and two or three further along one line (shared paths, degree 4..5), x junction position x improvement options x follow-up; both kinds of registration: by root junction, and by a list of terminal ConnEnds (no junction or connector exists beforehand, the rerouter creates them).',
+    'Orthogonal routing only (hyperedge rerouting is orthogonal). F12, F28 and F29 are known findings; F51 (terminal-list registration left every terminal end unattached) was repaired (fix: commit f673802).',
     'TLA+ declarative tree/terminal specification; TLC-enumerated scenarios replayed; record validation', '4/C12')
 
 chk('C18', 'model_checking',
@@ -155,6 +155,6 @@ chk('C14', 'model_checking',
     'segments from one end node to the other (within the per-side node padding 0.25*IEL/2) and clear of every third node, and every separation constraint compiled from the returned SepMatrix '
     '(SepPair::generateSeparationConstraint, meaning as in SepCo.tla) satisfied by the returned centres. The Logger seam supplies the last logged state of the planar graph P, which the spec uses to '
     'tell a stale constraint of the core from a constraint the returned positions were solved under.',
-    'Seeded random connected simple graphs of 2..14 (quick) / 2..25 (thorough) nodes in the shapes the property lists, catalogue node sizes, random start positions, 8 option vectors. '
+    'Seeded random connected simple graphs of 2..14 (quick) / 2..25 (thorough) nodes in the shapes the property lists, catalogue node sizes, random start positions, 128 option vectors (ACA|chains, near-alignment, convex trees, aspect preference, preferred tree growth direction). '
     'Runs that leave by std::runtime_error ("No feasible expansions", "Infeasible collateral tree sep") return no drawing and are counted, not judged. Tolerance 2/64. Phase-by-phase invariants are not checked.',
     'TLA+ postcondition over recorded doHOLA results; Logger-seam state of the planar graph', '4/C14')
